@@ -37,7 +37,7 @@ RULE = ("each run builds a chain of 1-4 components (real RateLimiter, AccessCont
         "of the runs uses start_server()'s own chain assembly. distinct = distinct (chain shape, "
         "decision vector, event signature); non-trivial = some component rejected, raised or was "
         "slow, or the request was titan")
-PROBES = ["policy_decisions_checked", "chain_rejected", "chain_raised", "slow_component", "titan_with_chain",
+PROBES = ["client_sends_extra_chain_certificate", "policy_decisions_checked", "chain_rejected", "chain_raised", "slow_component", "titan_with_chain",
           "content_arrived_while_chain_undecided", "peer_left_while_chain_undecided",
           "client_cert_presented", "ipv6_peer", "real_handlers", "start_server_assembly",
           "timer_fired_while_chain_undecided", "flood_1000_pending_requests", "policy_from_toml"]
@@ -294,8 +294,11 @@ def run_one(ch):
     for i in range(nconn):
         info = gen_conn(ch, i, True)
         info["ip"] = SRC_IPS[ch.choose("ip", len(SRC_IPS))]
-        info["cert"] = ch.pick("cert", [None, "cli_rsa1", "cli_ed1", "cli_same1", "cli_same2"],
-                               [4, 2, 1, 2, 2]) if mode != "plain" else None
+        # cli_bundle: the client sends its own certificate (cli_rsa2) plus a copy of the
+        # whitelisted cli_rsa1 certificate it holds no key for - it presented cli_rsa2
+        info["cert"] = ch.pick("cert", [None, "cli_rsa1", "cli_ed1", "cli_same1", "cli_same2",
+                                        "cli_bundle"],
+                               [4, 2, 1, 2, 2, 2]) if mode != "plain" else None
         info["start"] = ch.pick("cstart", [0.0, 0.01, 0.7]) if i else 0.0
         # content arrives late (titan): split after the line with a delay
         info["late"] = ch.pick("late", [0.0, 0.02, 1.0, 6.0], [5, 3, 2, 1])
@@ -542,6 +545,8 @@ def run_one(ch):
                             "file content delivered for a refused request", **ctx)
         if c["cert"] and mode == "pyopenssl":
             res.stats["client_cert_presented"] += 1
+            if c["cert"] == "cli_bundle":
+                res.stats["client_sends_extra_chain_certificate"] += 1
         if ":" in c["ip"]:
             res.stats["ipv6_peer"] += 1
         res.stats["connections"] += 1
